@@ -1,9 +1,9 @@
 """C06 — concurrency limits, no leaked slot, at-most-once scheduling (DESIGN 5.6)."""
 from facts import AnalysisBroken
 from model import (dstr, strip, fact_holds, mentions_field, mentions_call, mentions_var,
-                   mentions_enum, const_value, walk, norm_cond)
+                   mentions_enum, const_value, walk, norm_cond, facts_str, basename as _bn)
 from props.scan_common import check_active_edges, check_midbuild_targets_scheduled
-from rules import (skip_conditions_exact, loops_over, guarded, calls_to, field_writes, who_may_write, who_may_call, atom_cmp,
+from rules import (deep_resolve, skip_conditions_exact, loops_over, guarded, calls_to, field_writes, who_may_write, who_may_call, atom_cmp,
                    is_enum, is_var, is_field, has_field, anything, must_pass, basename)
 import cf
 
@@ -660,6 +660,8 @@ def run(ctx):
               dstr(rets[0].get('e')) if rets else '')
     ctx.floor('C06.W1', 3)
 
+    check_jobserver_client(ctx)
+
 
 # Exit sites reachable while slots are held that are NOT counted as violations, with the reason.
 EXIT_SITES = {
@@ -682,3 +684,189 @@ EXIT_SITES = {
     'emhash8::HashMap<StringPiece, std::unique_ptr<BuildLog::LogEntry>>::rehash':
         'third-party container: abort() on an impossible bucket count',
 }
+
+
+def check_jobserver_client(ctx):
+    """C06.J1: the token protocol of the POSIX jobserver client (the functions behind Jobserver::Client::TryAcquire /
+    Release).  A token is one byte taken out of the fifo; it must be handed back as the same byte, exactly when the slot is
+    a valid explicit one; the one implicit slot is a flag that TryAcquire clears and Release sets."""
+    prog = ctx.prog
+    ctx.rule('C06.J1', 'R', 'jobserver client: an explicit slot is created only from a read() that returned exactly one '
+             'byte, and carries that byte; the implicit slot is handed out only while the flag is set, which is cleared on '
+             'that path; Release writes the slot\'s own byte for every valid explicit slot (retrying on EINTR), sets the '
+             'flag for the implicit one, does nothing else; the fifo is opened non-blocking on both ends')
+    impls_a = [f for f in prog.functions.values() if f.name.endswith('::TryAcquire') and f.cls and f.cls != 'Jobserver::Client'
+               and f.blocks and 'test' not in f.file]
+    impls_r = [f for f in prog.functions.values() if f.name.endswith('::Release') and f.cls and f.cls != 'Jobserver::Client'
+               and f.blocks and 'test' not in f.file and 'Jobserver' in (f.cls or '')]
+    if not impls_a or not impls_r:
+        raise AnalysisBroken('C06.J1: no implementation of Jobserver::Client::TryAcquire / Release found')
+
+    def flag_fields(f):
+        return {x['n'] for e in f.events() for x in walk(e.get('l') if e['k'] == 'asg' else None) if isinstance(x, dict)
+                and x.get('k') == 'mem' and 'bool' in (x.get('ty') or 'bool')} if False else set()
+
+    for f in impls_a:
+        cls = f.cls
+        nexp = nimp = 0
+        for e in f.events('call'):
+            nm = e.get('name') or ''
+            if nm == 'Jobserver::Slot::CreateExplicit':
+                nexp += 1
+                # guard: (ret == 1) where ret's only definition is the read() call
+                facts = f.facts_at(e)
+
+                def one_byte(a):
+                    a = strip(a)
+                    if not (isinstance(a, dict) and a.get('k') == 'bin' and a['op'] == '==' and const_value(a['r']) == 1):
+                        return False
+                    v = deep_resolve(f, a['l'])
+                    return mentions_call(v, 'read') or mentions_call(a['l'], 'read') or _only_def_is_call(f, a['l'], 'read')
+                ok = fact_holds(facts, one_byte, True)
+                ctx.check('C06.J1', ok, f.name, 'explicit-slot:not-behind-read-of-one-byte', f.where(e),
+                          'an explicit slot is created only where read() returned 1 - in %s; facts: %s' % (f.name, facts_str(facts)[:8]))
+                # the byte: the argument is the variable whose address read() was given
+                arg = (e.get('args') or [None])[0]
+                bufs = set()
+                for r in f.events('call'):
+                    if r.get('name') == 'read' and len(r.get('args') or []) == 3:
+                        for x in walk(r['args'][1]):
+                            if isinstance(x, dict) and x.get('k') == 'var':
+                                bufs.add(x['n'])
+                        ctx.check('C06.J1', const_value(r['args'][2]) == 1, f.name, 'read:not-one-byte', f.where(r),
+                                  'one token = one byte: read() asks for exactly 1 byte in %s' % f.name)
+                sa = strip(arg)
+                ctx.check('C06.J1', isinstance(sa, dict) and sa.get('k') == 'var' and sa['n'] in bufs and
+                          not any(x['k'] == 'asg' and is_var(sa['n'])(x['l']) for x in f.events('asg')),
+                          f.name, 'explicit-slot:not-the-byte-read', f.where(e),
+                          'the slot carries the byte read() stored (%s), never reassigned - in %s' % (dstr(arg), f.name))
+            if nm == 'Jobserver::Slot::CreateImplicit':
+                nimp += 1
+                facts = f.facts_at_block(e['_b'])      # at the head of the block: the store that clears the flag kills the fact
+                flags = [k for k, (pol, a) in facts.items() if pol and isinstance(strip(a), dict) and strip(a).get('k') == 'mem'
+                         and strip(a)['n'].startswith(cls + '::')]
+                ctx.check('C06.J1', len(flags) >= 1, f.name, 'implicit-slot:not-behind-flag', f.where(e),
+                          'the implicit slot is handed out only while the has-implicit-slot flag is set - in %s; facts: %s' % (
+                              f.name, facts_str(facts)[:6]))
+                for k in flags[:1]:
+                    fld = strip(facts[k][1])['n']
+                    # on every path from the test to the return the flag is cleared
+                    cleared = [x for x in f.blocks[e['_b']]['ev'] if x['k'] == 'asg' and is_field(fld)(x['l'])
+                               and const_value(x.get('r')) in (0, False)]
+                    r = f.find_path(None, lambda x: x is e, is_blocker=lambda x: x['k'] == 'asg' and is_field(fld)(x['l']) and
+                                    const_value(x.get('r')) in (0, False), from_succ=f.entry)
+                    r2 = None
+                    if r is not None:       # cleared after the creation, before the return?
+                        r2 = f.find_path(e, lambda x: x['k'] == 'ret', is_blocker=lambda x: x['k'] == 'asg' and
+                                         is_field(fld)(x['l']) and const_value(x.get('r')) in (0, False))
+                    ctx.check('C06.J1', r is None or r2 is None, f.name, 'implicit-slot:flag-not-cleared', f.where(e),
+                              'handing out the implicit slot clears %s on every path - in %s' % (fld, f.name))
+                    allowed = {f.name: 'cleared when the implicit slot is handed out'}
+                    for g in impls_r:
+                        allowed[g.name] = 'set again when the implicit slot comes back'
+                    who_may_write(ctx, 'C06.J1', fld, allowed, 'implicit-slot flag')
+        ctx.check('C06.J1', nexp >= 1 and nimp >= 1, f.name, 'TryAcquire:slot-kinds', f.loc,
+                  '%s can hand out the implicit slot and explicit slots (%d / %d creation sites)' % (f.name, nimp, nexp))
+        # every other return is the invalid slot
+        for r in f.events('ret'):
+            d = strip(r.get('e'))
+            txt = dstr(d)
+            ok = 'CreateExplicit' in txt or 'CreateImplicit' in txt or txt.replace(' ', '') in ('Jobserver::Slot{}', 'Jobserver::Slot()') \
+                or (isinstance(d, dict) and d.get('k') in ('ctor', 'call') and not (d.get('args') or []))
+            ctx.check('C06.J1', ok, f.name, 'TryAcquire:other-slot-returned', f.where(r),
+                      'a return of %s is one of the two creations or the invalid slot: %s' % (f.name, txt))
+
+    for f in impls_r:
+        writes = [e for e in f.events('call') if e.get('name') == 'write']
+        ctx.check('C06.J1', len(writes) >= 1, f.name, 'Release:no-write', f.loc, '%s hands an explicit token back with write()' % f.name)
+        for w in writes:
+            args = w.get('args') or []
+            ctx.check('C06.J1', len(args) == 3 and const_value(args[2]) == 1, f.name, 'write:not-one-byte', f.where(w),
+                      'one token = one byte: write() of exactly 1 byte in %s' % f.name)
+            # the byte written is slot.GetExplicitValue()
+            var = None
+            for x in walk(args[1] if len(args) > 1 else None):
+                if isinstance(x, dict) and x.get('k') == 'var':
+                    var = x['n']
+            defs = [e for e in f.events() if (e['k'] == 'decl' and e['n'] == var) or (e['k'] == 'asg' and is_var(var or '?')(e['l']))]
+            ok = bool(defs) and all(mentions_call(e.get('init') if e['k'] == 'decl' else e.get('r'), 'Jobserver::Slot::GetExplicitValue')
+                                    for e in defs)
+            ctx.check('C06.J1', ok, f.name, 'write:not-the-slot-byte', f.where(w),
+                      'the byte handed back is the slot\'s own value (%s := GetExplicitValue()) in %s' % (var, f.name))
+            facts = f.facts_at(w)
+            ctx.check('C06.J1', fact_holds(facts, lambda a: mentions_call(a, 'Jobserver::Slot::IsValid'), True) and
+                      fact_holds(facts, lambda a: mentions_call(a, 'Jobserver::Slot::IsImplicit'), False),
+                      f.name, 'write:guard', f.where(w),
+                      'the write happens for a valid, not implicit slot - in %s; facts: %s' % (f.name, facts_str(facts)[:6]))
+            # EINTR: from the write, a return is reached only when the result is not (ret < 0 && errno == EINTR)
+
+            def eintr_retry(b, i, s):
+                for key, pol, atom in f.edge_facts(b, i, all=True):
+                    a = strip(atom)
+                    if pol and isinstance(a, dict) and a.get('k') == 'bin' and a['op'] == '==' and const_value(a['r']) == 4 and \
+                            mentions_call(a['l'], '__errno_location'):
+                        return False       # the EINTR side: must go round again, we do not follow it
+                return True
+            r = f.find_path(w, lambda x: x['k'] == 'ret' or x is w, edge_ok=eintr_retry)
+            retry_exists = any(pol and const_value(strip(a).get('r')) == 4 for b in f.blocks for i in range(len(f.blocks[b]['succ']))
+                               for k, pol, a in f.edge_facts(b, i, all=True) if isinstance(strip(a), dict) and strip(a).get('k') == 'bin'
+                               and mentions_call(strip(a).get('l'), '__errno_location'))
+            back = f.find_path(w, lambda x: x is w)
+            ctx.check('C06.J1', retry_exists and back is not None, f.name, 'write:no-EINTR-retry', f.where(w),
+                      'an interrupted write() of a token is repeated (errno == EINTR leads back to the write) in %s' % f.name)
+        # every path of a valid explicit slot reaches the write; of a valid implicit one the flag store
+
+        def world(valid, implicit):
+            def ok(b, i, s):
+                for key, pol, atom in f.edge_facts(b, i, all=True):
+                    if mentions_call(atom, 'Jobserver::Slot::IsValid') and strip(atom).get('k') == 'call':
+                        if pol != valid:
+                            return False
+                    if mentions_call(atom, 'Jobserver::Slot::IsImplicit') and strip(atom).get('k') == 'call':
+                        if pol != implicit:
+                            return False
+                return True
+            return ok
+        r = f.find_path(None, lambda x: x['k'] == 'ret', is_blocker=lambda x: x['k'] == 'call' and x.get('name') == 'write',
+                        from_succ=f.entry, edge_ok=world(True, False))
+        ctx.check('C06.J1', r is None, f.name, 'Release:explicit-slot-not-written-back', f.loc,
+                  'every path of %s with a valid explicit slot passes the write()' % f.name,
+                  witness=None if r is None else {'blocks': r[0]})
+        flagw = [e for e in f.events('asg') if isinstance(strip(e['l']), dict) and strip(e['l']).get('k') == 'mem' and
+                 const_value(e.get('r')) in (1, True)]
+        r = f.find_path(None, lambda x: x['k'] == 'ret', is_blocker=lambda x: any(x is y for y in flagw),
+                        from_succ=f.entry, edge_ok=world(True, True))
+        ctx.check('C06.J1', bool(flagw) and r is None, f.name, 'Release:implicit-slot-not-returned', f.loc,
+                  'every path of %s with the implicit slot sets the flag again' % f.name,
+                  witness=None if r is None else {'blocks': r[0]})
+        # an invalid slot changes nothing
+        r = f.find_path(None, lambda x: (x['k'] == 'call' and x.get('name') == 'write') or any(x is y for y in flagw),
+                        from_succ=f.entry, edge_ok=world(False, False))
+        r = r or f.find_path(None, lambda x: (x['k'] == 'call' and x.get('name') == 'write') or any(x is y for y in flagw),
+                             from_succ=f.entry, edge_ok=world(False, True))
+        ctx.check('C06.J1', r is None, f.name, 'Release:invalid-slot-acts', f.loc,
+                  'an invalid (moved-from / never acquired) slot releases nothing in %s' % f.name)
+    # non-blocking fifo ends
+    nopen = 0
+    for f in prog.functions.values():
+        if not (f.cls and 'JobserverClient' in f.cls):
+            continue
+        for e in f.events('call'):
+            if e.get('name') == 'open':
+                nopen += 1
+                fl = const_value((e.get('args') or [None, None])[1])
+                ctx.check('C06.J1', isinstance(fl, int) and fl & 0o4000, f.name, 'open:blocking', f.where(e),
+                          'the fifo is opened O_NONBLOCK (TryAcquire must never wait) - flags %s in %s' % (
+                              oct(fl) if isinstance(fl, int) else fl, f.name))
+    ctx.check('C06.J1', nopen >= 2, 'PosixJobserverClient', 'open:sites', 'src/jobserver-posix.cc:1',
+              'both ends of the fifo are opened by the client (%d open() calls)' % nopen)
+    ctx.floor('C06.J1', 16)
+
+
+def _only_def_is_call(f, d, callee):
+    d = strip(d)
+    if not (isinstance(d, dict) and d.get('k') == 'var'):
+        return False
+    defs = [e for e in f.events() if (e['k'] == 'asg' and is_var(d['n'])(e['l'])) or
+            (e['k'] == 'decl' and e['n'] == d['n'] and e.get('init') is not None and dstr(e.get('init')) != '_')]
+    return bool(defs) and all(mentions_call(e.get('r') if e['k'] == 'asg' else e.get('init'), callee) for e in defs)
